@@ -256,6 +256,102 @@ pub fn run_budgeted(
     }
 }
 
+/// Does the program contain process instructions (which park the process on the sync path)?
+pub fn has_process_ops(bc: &Bytecode) -> bool {
+    bc.functions.iter().any(|f| {
+        f.instructions.iter().any(|i| {
+            matches!(i, Instruction::Spawn | Instruction::Send | Instruction::Select | Instruction::Self_ | Instruction::Process(_, _))
+        })
+    })
+}
+
+pub struct SystemRun {
+    /// the program the worker's executor runs: `Environment::get_program()` after the REPL line
+    /// was merged
+    pub program: Bytecode,
+    /// per process: the instruction trace of that process
+    pub traces: std::collections::BTreeMap<usize, Trace>,
+    pub outcome: String,
+    /// trace segments that could not be attributed to a process
+    pub unattributed: usize,
+}
+
+/// Evaluate `src` as a REPL line in the full system (real `Environment` + one real `Worker`,
+/// single-threaded deterministic simulator `qverif::sim`), recording the instruction trace *per
+/// process*: every worker step is split into "handle commands, execute nothing" (time slice 0)
+/// and "execute the front of the run queue" (no command visible), so the process that runs is
+/// known before the step.
+pub fn run_system_traced(src: &str, b: &Builtins, max_rounds: usize) -> Result<SystemRun, String> {
+    use qverif::sim::{Choice, Sim};
+    let src = src.to_string();
+    let b = b.clone();
+    catch(move || {
+        let mut sim = Sim::new(1, None, b, false).with_repl(HashMap::new());
+        let req = match sim.submit(&src) {
+            Ok(Some(id)) => id,
+            Ok(None) => return Err("no code".to_string()),
+            Err(_) => return Err("rejected".to_string()),
+        };
+        let mut traces: std::collections::BTreeMap<usize, Trace> = Default::default();
+        let mut unattributed = 0usize;
+        let mut outcome = "budget".to_string();
+        let mut idle_rounds = 0;
+        for _ in 0..max_rounds {
+            if let Some(r) = sim.poll_result(req) {
+                outcome = match r {
+                    Ok(_) => "value".to_string(),
+                    Err(e) => format!("error:{}", error_detail(&e)),
+                };
+                break;
+            }
+            sim.step(Choice::Env { visible: vec![usize::MAX] });
+            // commands only
+            sim.quantum = Some(0);
+            sim.step(Choice::Worker { i: 0, visible: usize::MAX });
+            // settle expired time-outs into the queue
+            sim.step(Choice::Worker { i: 0, visible: 0 });
+            sim.quantum = None;
+            let pid = sim.workers[0].verif_executor().verif_queue().first().copied();
+            quiver_core::executor::verif::set_trace(Some(vec![]));
+            sim.step(Choice::Worker { i: 0, visible: 0 });
+            let seg = quiver_core::executor::verif::take_trace().unwrap_or_default();
+            quiver_core::executor::verif::set_trace(None);
+            if !seg.is_empty() {
+                match pid {
+                    Some(pid) => traces.entry(pid).or_default().extend(seg),
+                    None => unattributed += 1,
+                }
+            }
+            if !sim.faults.is_empty() {
+                outcome = format!("fault:{}", sim.faults[0].2.lines().next().unwrap_or(""));
+                break;
+            }
+            if sim.idle() {
+                match sim.next_timeout() {
+                    Some(t) => {
+                        let ms = t.saturating_sub(sim.time_ms).max(1);
+                        sim.step(Choice::Tick { ms });
+                        idle_rounds = 0;
+                    }
+                    None => {
+                        idle_rounds += 1;
+                        if idle_rounds > 6 {
+                            outcome = "quiescent".to_string();
+                            break;
+                        }
+                    }
+                }
+            } else {
+                idle_rounds = 0;
+            }
+        }
+        quiver_core::executor::verif::set_quantum_override(None);
+        let program = sim.env.get_program().to_bytecode(None);
+        Ok(SystemRun { program, traces, outcome, unattributed })
+    })
+    .unwrap_or_else(|p| Err(format!("panic: {}", p.lines().next().unwrap_or(""))))
+}
+
 pub fn error_detail(e: &quiver_core::Error) -> String {
     match e {
         quiver_core::Error::TypeMismatch { expected, .. } if expected == "known tuple type" => "TupleUndefined".into(),
@@ -310,6 +406,9 @@ pub struct TraceCheck {
     /// distinct observed steps that stay in / push / replace the current frame:
     /// request `(step f pc s l variant)` → the answer the executor's behaviour corresponds to
     pub steps: HashMap<String, String>,
+    /// `Select` ran a filter function on a message (frame pushed from the select, verdict returned
+    /// without incrementing the counter)
+    pub select_filter_calls: usize,
 }
 
 #[derive(Clone, Debug)]
@@ -339,7 +438,7 @@ pub struct FrameSample {
 /// (stack length at function entry minus the argument).
 pub fn check_trace(functions: &[Function], anns: &[Vec<Option<Ann>>], trace: &Trace) -> TraceCheck {
     let mut shadow: Vec<Shadow> = vec![];
-    let mut res = TraceCheck { points: 0, max_depth: 0, mismatch: None, misaligned: None, stores_checked: 0, tailcalls: vec![], samples: vec![], loop_head_drift: None, reentries: 0, steps: HashMap::new() };
+    let mut res = TraceCheck { points: 0, max_depth: 0, mismatch: None, misaligned: None, stores_checked: 0, tailcalls: vec![], samples: vec![], loop_head_drift: None, reentries: 0, steps: HashMap::new(), select_filter_calls: 0 };
     let sample_every = (trace.len() / 150).max(1);
     // slot numbering: the compiler gives the variable bound by a `Store` the index `local_count`
     // it has at that point; the VM appends at the runtime count. They agree only if every
@@ -424,6 +523,7 @@ pub fn check_trace(functions: &[Function], anns: &[Vec<Option<Ann>>], trace: &Tr
                         top.sel = 1;
                     } else if pc == 0 && s > 0 {
                         // a filter function was called on a message
+                        res.select_filter_calls += 1;
                         top.sel = 2;
                         shadow.push(Shadow { f, base: s - 1, pc: 0, sel: 0, l: functions[f].captures, entry: (s, l), entry_f: f });
                     } else {
@@ -516,12 +616,20 @@ pub fn check_trace(functions: &[Function], anns: &[Vec<Option<Ann>>], trace: &Tr
                     Instruction::Call => if pushed { format!("fn:{f}") } else { "builtin".to_string() },
                     Instruction::TailCall(false) => format!("fn:{f}"),
                     Instruction::Send => "proc".to_string(),
+                    Instruction::Spawn => "fn:0".to_string(),
                     _ => "plain".to_string(),
                 };
                 let req = format!("(step {pf} {ppc} {} {pl} {variant})", ps - pbase);
                 // model frames: the synthetic process has 2 frames before the step
                 let depth_after = if pushed { 3 } else { 2 };
-                let expect = format!("ok {depth_after} {f} {pc} {} {l} none", s - pbase);
+                let expect = if matches!(pinstr, Instruction::Spawn) {
+                    // the executor parks with both operands popped (not traced); `notify_spawn`
+                    // then pushes the pid and increments the counter: the next traced point
+                    // (pc + 1, one cell less) is the model's parked state + 1 cell
+                    format!("ok 2 {pf} {ppc} {} {pl} spawning", (s - pbase).saturating_sub(1))
+                } else {
+                    format!("ok {depth_after} {f} {pc} {} {l} none", s - pbase)
+                };
                 res.steps.entry(req).or_insert(expect);
             }
         }
